@@ -2,6 +2,7 @@ import MdsVerif.Drv.Core
 import MdsVerif.Drv.C05
 import MdsVerif.Model.Cache
 import MdsVerif.Spec.LruRef
+import MdsVerif.Proofs.Cache
 /-!
 Driver stream `C08`: sequential `cache.Cache` histories on `Model.Cache.step`
 (over the heap configuration regenerated from heapq.go) against the recency
@@ -70,12 +71,15 @@ def step (s : St) (toks : List String) (impl : String) : St × String × String 
         let ev := (parseEv (field impl "ev"))
         s!"r={field impl "r"};len={field impl "len"};size={field impl "size"};keys={field impl "keys"};ev={fmtEv (isort ev)}"
       else impl
-    -- Classify a mismatch.  Finding F2 (a heap disturbed by Remove yields a non-LRU victim) can only change WHICH
-    -- entries a Put evicts: result, Len, Size and the NUMBER of callbacks still agree with the reference.  Only
-    -- such a line is worded `LRU-victim` (the wording known_findings.json matches); anything else is `reference`.
+    -- Classify a mismatch.  Finding F2 (a heap disturbed by Remove yields a non-LRU victim) shows exactly when an
+    -- `Evict` run by this Put does NOT find the minimal lastAccess at the heap root: `Proofs.Cache.stepMin` on
+    -- the model state before the step is `false`.  When it is `true`, `C08_step_refines_if_evict_min` proves
+    -- that model and reference agree, so a mismatch then is not F2.  (With variable sizes a wrong, smaller
+    -- victim can also change HOW MANY entries are evicted, so Len/Size/number of callbacks need not agree.)
     let same (k : String) := field sp k == field impl' k
-    let nEv (o : String) := (parseEv (field o "ev")).length
-    let victimOnly := same "r" && same "len" && same "size" && nEv sp == nEv impl' && (match op with | some (.put _ _) => true | _ => false)
+    let victimOnly := same "r" && (match op with
+      | some (.put k v) => !(MdsVerif.Proofs.Cache.stepMin C05.cfg sz s.c (.put k v))
+      | _ => false)
     let v := if sp == impl' then "ok"
       else if victimOnly then s!"bad C08 LRU-victim differs from the reference LRU: {sp}"
       else s!"bad C08 reference LRU: {sp}"
